@@ -8,7 +8,7 @@ parameter each read value reaches.  The output is a finite table
 `token sequence -> node fields`, compared with the reference tables.
 """
 import copy
-from .facts import peel, callee_of, short, lit_value, pat_variants
+from .facts import peel, callee_of, short, lit_value, pat_variants, walk
 
 READS = {"get_reg": "r", "get_imm": "i", "get_label": "l", "get_csrimm": "c", "get_string": "s", "get_any": None,
          "expect_rparen": ")", "_expect_lparen": "("}
@@ -265,6 +265,13 @@ class Decoder:
                         else:
                             yield neg, ("unit",)
                         return
+            # an operand *value* check that rejects the statement: `if !<range>.contains(&imm.value()) { return Err(..) }` -
+            # no token is read in either part, and the accepted path simply goes on
+            reads = [m for m in walk(e, pats=False) if m.get("k") == "MethodCall" and (m["name"].startswith("get_") or m["name"].startswith("peek_")) and m["name"] not in ("get_mut", "get_cloned")]
+            rejects = any(r_.get("k") == "Ret" for r_ in walk(e["then"], pats=False)) and any(c_.get("k") == "Call" and short(callee_of(c_) or "") == "Err" for c_ in walk(e["then"], pats=False))
+            if e.get("else") is None and rejects and not reads:
+                yield st, ("unit",)
+                return
             raise Unextractable(f"unsupported if-condition at {e.get('sp')}")
         if k == "Match" and e.get("src") != "TryDesugar":
             sv_state = st.fork()
